@@ -1,35 +1,28 @@
 PROP = {
-    "lean_modules": ["GunYu.Props.C04", "GunYu.Props.C04X", "GunYu.Props.C04F", "GunYu.Props.C04L", "GunYu.Props.C04B"],
+    "lean_modules": ["GunYu.Props.C04", "GunYu.Props.C04X", "GunYu.Props.C04F", "GunYu.Props.C04L", "GunYu.Props.C04B", "GunYu.Props.C04S", "GunYu.Props.C04G"],
     "audit_namespaces": ["GunYu.Props.C04"],
     "required_theorems": [
         "GunYu.Props.C04.no_checkpoint_unless_terminated",
         "GunYu.Props.C04.no_checkpoint_unless_all_applied",
         "GunYu.Props.C04.ok_only_if_all_applied",
-        "GunYu.Props.C04.parse_total",
-        "GunYu.Props.C04.truncation_errors",
-        "GunYu.Props.C04.done_ends_with_footer",
-        "GunYu.Props.C04.alteration_needs_crc_collision",
-        "GunYu.Props.C04.alteration_detected",
-        "GunYu.Props.C04.zero_footer_exception",
         "GunYu.Props.C04.parse_total_gen",
         "GunYu.Props.C04.truncation_errors_gen",
         "GunYu.Props.C04.done_ends_with_footer_gen",
         "GunYu.Props.C04.alteration_detected_gen",
-        "GunYu.Props.C04.alteration_is_error_gen",
-        "GunYu.Props.C04.itemT_good",
-        "GunYu.Props.C04.itemT_total",
-        "GunYu.Props.C04.recorded_only_if_parsed_and_applied",
-        "GunYu.Props.C04.truncated_never_recorded",
-        "GunYu.Props.C04.altered_never_recorded",
-        "GunYu.Props.C04.altered_never_recorded_model",
         "GunYu.Props.C04.readBytes_alloc_bounded",
         "GunYu.Props.C04.readBytes_ok",
         "GunYu.Props.C04.alloc_bounded_partial",
         "GunYu.Props.C04.readBytes_requests_bounded",
         "GunYu.Props.C04.lzfAlloc32_bounded",
-        "GunYu.Props.C04.bodyChan_agrees",
-        "GunYu.Props.C04.chanFeed_is_feed",
-        "GunYu.Props.C04.recorded_only_if_parsed_and_applied_chan",
+        # RETIRED from the required list in session 5 (still in Props/C04.lean, still compiled and axiom-audited by the namespace
+        # audit): the instances for the OLD frame grammar `parse` (LZF / streams / modules / text floats = 'unsup') and its
+        # error-reading itemT - parse_total, truncation_errors, done_ends_with_footer, alteration_needs_crc_collision,
+        # alteration_detected, zero_footer_exception, alteration_is_error_gen, itemT_good, itemT_total,
+        # recorded_only_if_parsed_and_applied, truncated_never_recorded, altered_never_recorded, altered_never_recorded_model,
+        # bodyChan_agrees, chanFeed_is_feed, recorded_only_if_parsed_and_applied_chan. Each has a counterpart below with suffix
+        # _x / _s / chanFeedS stating the same for the extended grammar, which decides every input the old one decides and more
+        # (no agreement THEOREM between the two models: both are tied to the real parser by their own sweeps, c04parse/c04xor
+        # and c04xparse/c04xset; the claim of C04 now rests on the extended one only). The reader-generic lemmas *_gen stay.
         # session 4 — extended grammar (LZF, streams, modules, module-aux, text floats, split hashes): Props/C04X.lean
         "GunYu.Props.C04.itemX_good",
         "GunYu.Props.C04.itemX_total",
@@ -72,6 +65,20 @@ PROP = {
         # the LZF decision of the frame model is the decision of C03's content-producing decoder: Props/C04B.lean
         "GunYu.Props.C04.lzf_decision_is_full_buffer_decision",
         "GunYu.Props.C04.lzf_frame_decision",
+        # session 5 — leftovers of an aborted replay, a later replay beside them: Props/C04S.lean
+        "GunYu.Props.C04.ret_is_final",
+        "GunYu.Props.C04.checkpoint_only_with_ok",
+        "GunYu.Props.C04.aborted_stays_unrecorded",
+        "GunYu.Props.C04.recorded_stays_recorded",
+        "GunYu.Props.C04.stale_parser_holds_at_most_pipe",
+        "GunYu.Props.C04.later_replay_independent",
+        "GunYu.Props.C04.later_replay_recorded_exactly_once",
+        "GunYu.Props.C04.earlier_abort_stays_unrecorded",
+        # session 5 — the listpack walks of ExecCmd on the REGENERATED Listpack.Next (Gen/FnListpack.lean): Props/C04G.lean
+        "GunYu.Props.C04.gen_lpNext_past_end",
+        "GunYu.Props.C04.gen_lp_walk_bounded",
+        "GunYu.Props.C04.gen_lp_count_over_bytes_fails",
+        "GunYu.Props.C04.gen_lp_appended_le_bytes",
     ],
     "expected_facts": {
         # session 4 (harness/extract/c04.go): source pins of what Model/RdbLzf.lean / Model/RdbFrameX.lean transcribe by hand
@@ -80,6 +87,17 @@ PROP = {
         'c04_consts': {'maxBinEntryBuffer': '16 * 1024 * 1024', 'readBytesStep': '64 * 1024 * 1024'},
         'c04_readBytesP_args': ['16', '16', '8'],
         'c04_hash_chunk_cond': 'hp.buf.Len() > maxBinEntryBuffer && i != int(n-1)',
+        # session 5: what makes 'two replays of one RedisOutput share nothing' (Props/C04S.lean) the right model: every channel /
+        # parser sendRdb creates is bound to a name declared in sendRdb (whatever the names), rdbPipe is a fresh ParseRdb over the reader handed in, ParseRdb's
+        # channel is a local make, its body mentions one package-level variable (RdbVersion, never written), all its sends are
+        # inside its goroutine, and every run of the input obtains a new reader
+        'c04_sendRdb_nonlocal_channels': [],
+        'c04_sendRdb_unbound_makers': 0,
+        'c04_rdbPipe_source': 'rdb.ParseRdb(reader.IoReader(), &readBytes, config.RdbPipeSize, ro.rdbParseOptions()...)',
+        'c04_parseRdb_pipe': 'make(chan *BinEntry, size)',
+        'c04_parseRdb_pkg_vars': ['RdbVersion'],
+        'c04_parseRdb_sends': [5, 5],
+        'c04_reader_per_run': {'readChannel': 'ri.channel.NewReader(readerOffset.ToOffset())', 'run': 'ri.readChannel(runScope, startPoint)'},
     },
     "harness": [
         {"name": "C04", "pkg": "./syncer/", "test": "TestVerifC04", "timeout_quick": "15m", "timeout_thorough": "60m"},
@@ -163,7 +181,33 @@ PROP = {
             "(x1) steered values in every tier: each position is also overwritten with its neighbours' values and with its own +-1 "
             "(inlen := outlen, count +- 1 ...), an LZF string with inlen == outlen intact and with a reference before the start, "
             "and a stream with a count >= 2^63 (0x81 0x80 ...) at each of the four int() loop counts. "
-            "distinct_nontrivial = distinct (file, position) alteration rows + distinct fan-out scenario points",
+            "Session 5: (s1) ENUMERATED schedules of the real sendRdb instead of repeated runs: the double gates every replay worker at "
+            "the first request of each snapshot entry (Hook), after each decision everything else runs to quiescence (synctest.Wait), "
+            "the controller takes ONE decision - release worker i (it applies the entry it holds), answer the held request with an "
+            "error (HookFail, real refusal texts in rotation), cancel the parent context - and ALL decision sequences are enumerated "
+            "(odometer over the decision tree; 11 configurations in the quick tier: 1-3 workers x 2-4 entries x pipe sizes 1/2/3/1024, "
+            "plain and bidirectional, restore on/off, two with the parser's INPUT gated (decision p = the bytes of the next entry are "
+            "released to rdb.ParseRdb: a worker that comes back to its select after a cancellation finds its pipe EMPTY or NOT as "
+            "the schedule says, so both outcomes of that select - leave on ctx.Done / take another entry - are forced, and x is also "
+            "taken while the parser waits for bytes = lost source), two onto a CLUSTER target with bidirectional replay (the AUX lua "
+            "script goes through the global lane = worker n of Model/RdbFanoutG.withGlobal and is gated at its first SCRIPT LOAD; "
+            "loaded on every primary is its 'applied'); 18 in the thorough tier up to 4 workers / 5 entries; budget 500 / 2500 runs "
+            "per tree, counters sched_trees_exhausted / _cut_by_budget, sched_after_cancel_a_worker_went_on / _no_worker_went_on; "
+            "where both select cases ARE ready Go decides and the tree is followed as the runtime makes it). AUX fields the replay "
+            "skips without a request (redis-ver, ctime ...) are not entries of the traced system. Each run is judged by the values monitor (incomplete-reported-ok / "
+            "incomplete-checkpointed, replay = file + configuration + decision list + trace) and its trace w<i>:<entry> / f<i>:<entry> / "
+            "x is FOLLOWED by the Lean event system (op c04trace): every step must be enabled in the model (before it parse/dist run "
+            "until that entry is the head of that worker's pipe: real traces are traces of the model, else diverged@k), then result, "
+            "checkpoint and the number of times EACH entry was applied must be the model's - counted per COMMAND: for every rendered "
+            "keyed request (command, key, arguments: one RPUSH of one element is one command) the double's executed requests against "
+            "the undisturbed run: 0 = some command of the entry missing, 1 = each exactly as often, 2 = some command more often or one "
+            "the undisturbed run never sends (lists with equal elements make a repeated push differ from two pushes). (s2) the fan-out scenarios of (3) carry mult=1: twice (some key got "
+            "more requests than one application needs) and, for a replay that returned nil, once (every key exactly one application) "
+            "of the real run against the model. (s3) a SECOND SendRdb on the same RedisOutput and target, fresh reader, after a first "
+            "one aborted by a target error / cancellation with rdbPipe so small that rdb.ParseRdb stays blocked (5 scenarios, the stale "
+            "goroutine still there): same monitors; tied to the model's clean run. A trace / multiplicity DIFF alone is a broken tie "
+            "(no-failing-input-found), violations with replay come from the Go monitors. "
+            "distinct_nontrivial = distinct (file, position) alteration rows + distinct fan-out scenario points + distinct enumerated traces",
     "trusted": [
         "RDB framing (opcodes, length forms, string forms, per-type value layout) as transcribed in Model/RdbFrame.lean / "
         "Model/RdbFrameX.lean (LZF, streams, modules, module-aux, text floats, chunk continuation) / Model/RdbLzf.lean and as "
@@ -192,6 +236,17 @@ PROP = {
         "reader), consumes at least a byte and reports EOF only for byte 0xFF - PROVED for the extended grammar incl. LZF, "
         "streams, modules, module-aux, text floats and the chunk continuation (itemX_good); what remains trusted of the real "
         "Loader.Next is that it IS that grammar (the x1 sweep compares every outcome)",
+        "fan-out, session 5: the trace tie (c04trace) reads the model's pipe capacities as capacity + 1 (a real worker / the "
+        "distributor holds one entry in its hand besides the channel; the model keeps a held entry at the head of the pipe) and "
+        "lets parse / dist run lazily (only as far as the next traced step needs): both only decide which real traces the model "
+        "is asked to follow, the theorems hold for every capacity and schedule",
+        "two replays of one RedisOutput are modelled as a PRODUCT of two event systems (Props/C04S.lean): nothing is shared. On the "
+        "code that rests on the source facts c04_sendRdb_nonlocal_channels = [] / c04_sendRdb_unbound_makers = 0 (every channel and "
+        "parser sendRdb creates is bound to a name declared in sendRdb), c04_rdbPipe_source (a fresh ParseRdb over the reader handed "
+        "in), c04_parseRdb_pipe / _sends (ParseRdb's channel is a local make, all sends inside its goroutine), c04_parseRdb_pkg_vars "
+        "(only RdbVersion, never written outside tests), c04_reader_per_run (every run obtains a new reader) and on the scenario s3; "
+        "fields of RedisOutput that a replay writes (bisyncOffset, counters, checkpointInMem) are written by sendRdb's own goroutine "
+        "after all workers returned, not by the leftover parser",
         "fan-out, session 4: multiplicity is stated (checkpoint_exactly_once: the applied entries are a permutation of the "
         "snapshot's entries; applied_at_most_once in every state) at the model's granularity: ONE apply step per entry. The code "
         "applies an entry as several commands (probe, DEL, RESTORE or n pipelined commands); 'the entry failed' means its "
@@ -219,9 +274,12 @@ PROP = {
         "the count the same way: numConsumer is 32-bit in ReadBuffer and 64-bit in ExecCmd, and counts >= 2^63 skip ReadBuffer's "
         "int(n) loops but not ExecCmd's uint64 loops - there only count_loop_linear applies); instances: global PEL (25 bytes/round: <= 2 x bytes/25 map "
         "insertions, pel_loop_linear), consumer PEL (16), strings (1). All count loops of the ReadBuffer walks are inside the "
-        "extended frame model (parse_total_x: the whole parse ends within |input| rounds). NOT proved: the rounds of "
-        "StreamParser.ExecCmd that go through types.Listpack.Next (entry-num-fields: 2 slots appended per round) - that a "
-        "round advances by >= 1 byte or panics is C03's listpack model and the D23 repair, not re-proved here; ExecCmd compares "
+        "extended frame model (parse_total_x: the whole parse ends within |input| rounds). PROVED in session 5 on the "
+        "REGENERATED Listpack.Next (Gen/FnListpack.lean via x_C04_gofn.py; Props/C04G.lean): n consecutive returning calls consume "
+        ">= n bytes behind the cursor (gen_lp_walk_bounded), a count larger than the bytes left makes the walk panic = an error "
+        "(gen_lp_count_over_bytes_fails), what a count-driven loop appended is <= the listpack's bytes (gen_lp_appended_le_bytes) - "
+        "the rounds of StreamParser.ExecCmd through Listpack.Next (entry-num-fields: 2 slots appended per round, D32's field array); "
+        "that ExecCmd's loops ARE such walks (lpWalk) is read off the code, not regenerated; ExecCmd compares "
         "pelSize as uint64 where ReadBuffer's loop uses int(n) (a count >= 2^63 makes ReadBuffer skip its loop and ExecCmd run "
         "until the bytes end: bounded by the same lemma, ends in an error); ReadBytesP(n) stays unguarded (callers pass 16 / 8)",
         "memory / wall-clock on damaged input, earlier: proved (alloc_bounded_partial, Model/RdbAlloc.lean): ReadBytes (D22) returns at most "
@@ -241,17 +299,35 @@ PROP = {
         "bytes.Buffer behind every tee'd reader and the copies held per in-flight entry x RdbPipeSize (memory of the pipeline); the "
         "allocator's rounding; wall-clock time: parse_total bounds the steps of the frame MODEL by the input length, a value "
         "decoder's loop that does not advance (D23) is outside it - child processes with an address-space limit and watchdogs carry that part",
-        "real goroutine interleavings are explored by synctest schedules and repeated runs, not exhaustively",
-        "observation outside C04's letter: after an aborted sendRdb (target error, cancellation) the rdb.ParseRdb goroutine stays "
-        "blocked for ever in `pipe <- entry` when the rest of the snapshot does not fit rdbPipe (ParseRdb has no context, nobody "
-        "drains the channel): a goroutine + its buffers leak per aborted replay. The harness counts it "
-        "(observed_parser_goroutine_left_blocked_after_abort, ~200 per quick run) and does not report it: the replay IS reported "
-        "failed and nothing is recorded. Repair would be small (ParseRdb(ctx, ...) with select on ctx.Done(), or drain in sendRdb); "
-        "not applied, not a finding of this property",
-        "exactly-once (checkpoint_exactly_once, applied_at_most_once) and the global lane's routing (global_lane_routing) are "
-        "theorems about the event system; the tie (c04fan / c04fang) compares result and checkpoint of the scenario runs, not the "
-        "multiset of applied entries - on the real code multiplicity is seen only through the Go monitor's comparison of the final "
-        "VALUES on the target (a list element pushed twice differs; a SET applied twice does not)",
+        "real goroutine interleavings, session 5: the orders in which the replay workers apply their entries, the position of a "
+        "target error and of a cancellation among them are now ENUMERATED on the real code for small snapshots (s1: all decision "
+        "sequences of 1-3 workers x 3-4 entries, thorough up to 4 x 5) and every observed trace is followed by the event system; "
+        "NOT enumerated: the interleavings of parser / distributor relative to the workers beyond 'run to quiescence between two "
+        "decisions' (a decision is only taken when everything else is blocked), Go's choice in `select` after a cancellation "
+        "(followed as it falls, not forced both ways), the global lane and cluster targets (scenario runs of (3) only), larger "
+        "snapshots; since the coordinator's second round: the global lane on a cluster target IS in the enumeration (two trees, "
+        "thorough three) and the select after a cancellation is forced both ways by gating the parser's input; still followed "
+        "as it falls: a select with BOTH cases ready (distributor and worker). The theorems cover all of these, the tie samples them",
+        "the rdb.ParseRdb goroutine left blocked after an aborted sendRdb (ParseRdb has no context, nobody drains the channel when the "
+        "rest of the snapshot does not fit rdbPipe): DECIDED in session 5 - it cannot violate C04. Proved on the event system "
+        "(Props/C04S.lean): the verdict is final (ret_is_final: after sendRdb returned no event of any leftover goroutine changes "
+        "result or checkpoint; aborted_stays_unrecorded), the leftover parser pins at most RdbPipeSize items + the one in its hand "
+        "(stale_parser_holds_at_most_pipe), and a later replay beside it is the replay of its own events alone "
+        "(later_replay_independent, later_replay_recorded_exactly_once) - the product model is tied by source facts (see "
+        "assumptions) and by scenario s3 (second SendRdb on the same RedisOutput with the stale goroutine present). What remains is "
+        "a LEAK, outside C04: one goroutine + <= RdbPipeSize parsed entries + the reader per aborted replay of a snapshot larger "
+        "than the pipe (counted: observed_parser_goroutine_left_blocked_after_abort, ~200 per quick run; once the run scope closes "
+        "the store reader is closed, the parser's next read fails and it exits IF the pipe has room for the Err entry, else it "
+        "stays). Repair would be small (ParseRdb(ctx, ...) with select on ctx.Done(), or drain in sendRdb); not applied",
+        "exactly-once (checkpoint_exactly_once, applied_at_most_once) is since session 5 OBSERVED on the real code: the double's log "
+        "gives, per snapshot key, the requests it executed; against the undisturbed run of the same configuration that is how often "
+        "the entry was applied (0 = not completely, 1, 2 = more than one application needs). c04trace compares the whole vector "
+        "with the model's on every enumerated schedule; c04fan / c04fang (mult=1) compare twice / once on every scenario of (3). "
+        "Granularity: per rendered COMMAND where the double can tell (a push sent twice, a command the undisturbed run never sends, "
+        "one command missing while another is doubled); commands whose arguments depend on the time of sending would make the "
+        "comparison spurious - none in the tied scenarios (virtual clock). A second "
+        "application is a DIFF of the tie, not a violation - C04 does not forbid a correct retry; the values monitor judges the "
+        "result (a list pushed twice differs). The global lane's routing (global_lane_routing) stays a theorem + the scenario runs",
         "Part 2 -> Part 1 is a theorem (recorded_only_if_parsed_and_applied[_chan], truncated_never_recorded, altered_never_recorded); "
         "it rests on the transcript model of ParseRdb's goroutine (Model/RdbFeed.lean: Err / Done / after a footer error Err AND "
         "THEN Done - rdb.go falls through; chanFeed_is_feed: an instance of `feed`, so never recorded), which is now TIED: op c04chan "
@@ -264,8 +340,17 @@ PROP = {
         "text-float sorted sets are inside for every float predicate (altered_never_recorded_x needs one that decides: "
         "strconv.ParseFloat does); the value decoders that run in the workers (ExecCmd) are C03's subject, here they are "
         "'applying an entry' (may fail)",
-        "alteration_is_error_gen is instantiated for the OLD grammar with 'outside the model' read as an error (itemT); "
-        "alteration_is_error_x is the statement for the extended grammar (no such reading needed)",
+        "alteration_is_error_x is the operative statement (extended grammar, every item kind: its in-file universal instance exFileX "
+        "contains an LZF string, a split hash, a stream with group / PEL / consumer, a module value, a module-aux section and a "
+        "text-float sorted set; no 'outside the model' outcome exists there once the float predicate decides, and strconv.ParseFloat "
+        "decides). alteration_is_error_gen remains only as the combinator lemma for STATELESS readers; its single instance is still "
+        "the old grammar with unsup read as an error (itemT) - nothing rests on it any more. NOT done: a theorem that the old "
+        "grammar and the extended one agree wherever the old one decides (both are tied to the real parser separately)",
+        "gofn (regenerated definitions) for the allocation-sizing readers: NOT done. ReadLength / ReadBytes / the LZF string reader "
+        "read through an io.Reader receiver and return errors, lzfRoom uses append(out, make([]byte, k)...), lzfDecompress a "
+        "deferred recover: all outside gofn's pure subset (needs: a state-passing reading of r.readFull / ReadByte over List UInt8, "
+        "make/append-of-make with a length model, errors as opaque values, defer-recover as 'panic = error'). They stay hand "
+        "models (Model/RdbAlloc, Model/RdbLzf) tied by the body pins c04_lzfDecompress / c04_lzfRoom and the ops c04alloc / c04lzfx",
     ],
 }
 
@@ -284,12 +369,18 @@ MANIFEST = {
             "(session 4) all of (2)(3) for the EXTENDED grammar - LZF strings, streams, modules, module-aux, text floats, hashes split "
             "into chunks - with the item reader's sequentiality PROVED; the LZF output buffer follows the bytes produced (never the "
             "declared length); exactly-once: the checkpoint is written only when the applied entries are a permutation of the "
-            "snapshot's entries, also with the cluster-only global lane; count-driven loops complete at most bytes/k rounds. Tie: exhaustive truncation/XOR sweep of small files "
+            "snapshot's entries, also with the cluster-only global lane; count-driven loops complete at most bytes/k rounds; (session 5) the verdict of a "
+            "replay is final whatever its leftover goroutines do, the blocked parser of an aborted replay holds at most RdbPipeSize "
+            "items, and a later replay beside it is recorded only on its own input and entries (product of event systems, tied by "
+            "source facts). Tie: enumerated decision sequences of the real sendRdb (release / fail / cancel at every quiescent point) "
+            "whose traces the event system follows, with the per-entry multiplicity observed on the target; exhaustive truncation/XOR sweep of small files "
             "through the real parser (vs model) and the real SendRdb against the target double with fault injection, cancellation at "
             "every request and the hold-cancel-release schedule under synctest; independent Go monitor of the property.",
     "note": "trusted: Lean kernel, RDB framing transcription, target double, synctest; models of the REPAIRED code (D6, D19 fixed; D22, D23, D26, D32, D33 are crash/hang repairs outside the models)",
     "technique": "Lean 4 proof (12-clause inductive invariant over an event system; sequential-reader combinator lemmas) + exhaustive "
                  "small-scope differential correspondence + fault/cancellation schedule exploration + monitor; session 4: stateful "
                  "sequential readers (chunk continuation), fuel-independent loop combinator (module opcodes), permutation invariant "
-                 "(exactly-once), refinement by instance (global lane = worker n), content-free walk of the LZF loop with its buffer",
+                 "(exactly-once), refinement by instance (global lane = worker n), content-free walk of the LZF loop with its buffer; "
+                 "session 5: stateless-model-checking style enumeration of the real goroutines under synctest with trace inclusion "
+                 "into the Lean event system, product construction for consecutive replays",
 }
